@@ -435,12 +435,15 @@ def _pick_dim_blocks(rng, profile, maxdim):
                 if profile == "repeated_companion" and room() >= k:
                     add("C", (name, False, scale), k)
         lim = maxdim if profile != "options" else min(maxdim, 4)
+        if any(k_ == "C" and sp_[0] == "plastic" for k_, sp_ in blocks):
+            # exact CRootOf arithmetic in Polar's linsolve explodes beyond dimension 3-4: keep those systems small
+            lim = min(lim, size + (0 if maxdim <= 5 else 1))
         while size < lim and rng.random() < (0.65 if profile != "options" else 0.5):
             r = rng.random()
             if r < 0.3 and lim - size >= 2:
                 name = rng.choice(list(COMPANIONS) if profile != "options" else REAL_COMPANIONS + COMPLEX_COMPANIONS)
                 k = len(COMPANIONS[name])
-                if k <= lim - size:
+                if k <= lim - size and name != "plastic":
                     add("C", (name, rng.random() < 0.3, 1), k)
             elif r < 0.55:
                 k = min(lim - size, rng.choice([1, 1, 2, 3]))
@@ -572,6 +575,8 @@ def generate_system(cs, tier="quick", profile=None):
         kind = rng.choice(["rand", "rand", "unit", "rational"])
     if kind == "zero" and not any(b):
         kind = "rand"
+    if kind == "mixed" and d > 3 and any(kd != "J" for kd, _ in blocks):
+        kind = "rand"   # symbolic initial values x irrational roots x dimension > 3 only produces solver timeouts
     v = []
     for i in range(d):
         if kind == "rand":
